@@ -107,57 +107,79 @@ def runMulti (j : Json) : Except String Json := do
       | .error e => .error (craiseName e)) excObj [] ops []
   return obj [("steps", Json.arr steps.toArray)]
 
-def parseRefOp (j : Json) : Except String RefOp := do
+def parseWritable (j : Json) : Except String Writable := do
+  match (← sfld j "writable") with
+  | "ignore" => pure Writable.ignore | "yes" => pure Writable.yes | "no" => pure Writable.no
+  | s => throw s!"bad writable {s}"
+
+def traiseName : TRaise → String
+  | .typeError => "TypeError"
+  | .lookupError => "LookupError"
+  | .indexError => "IndexError"
+  | .unmodelled => "HARNESS-UNMODELLED-INPUT"
+  | .scalar e => raiseName e
+
+def readJson : Option (Native × List Char) → Json
+  | some (v, u) => Json.arr #[ofNative v, ofText u]
+  | none => Json.null
+
+def leafStates : Option Tree → List SState
+  | some (.list _ ms) => ms.filterMap fun t => match t with | .leaf _ _ st => some st | _ => none
+  | some (.leaf _ _ st) => [st]
+  | _ => []
+
+/-- form `Dict{sub: Dict{t: k}, o: String, r: Ref('../sub/t')}` -/
+def parseRefOp (j : Json) : Except String TOp := do
+  let sub : List PStep := [.name "sub".toList]
   match (← sfld j "op") with
-  | "tset" => return .targetSet (← parseNative (← fld j "x"))
-  | "subset" => return .subSet (← parseNative (← fld j "x"))
-  | "read" => return .read
+  | "tset" => return .leafSet (sub ++ [.name "t".toList]) (← parseNative (← fld j "x"))
+  | "subset" => return .dictSet sub [("t".toList, ← parseNative (← fld j "x"))]
+  | "read" => return .refRead
   | "rset" => return .refSet (← parseNative (← fld j "x"))
   | o => throw s!"bad ref op {o}"
 
 def runRef (j : Json) : Except String Json := do
   let E ← envOf j
   let k ← parseKind (← fld j "kind")
-  let w ← match (← sfld j "writable") with
-    | "ignore" => pure Writable.ignore | "yes" => pure Writable.yes | "no" => pure Writable.no
-    | s => throw s!"bad writable {s}"
+  let w ← parseWritable j
   let ops ← (← afld j "ops").mapM parseRefOp
-  let start : RefState := ⟨Flatland.C04.blankState⟩
-  let steps := runOps (fun (s : RefState) o => match s.step E k w o with
+  let path : List PStep := [.name "sub".toList, .name "t".toList]
+  let start : TState := ⟨.dict ["sub".toList, "o".toList]
+    [.dict ["t".toList] [.leaf 0 k Flatland.C04.blankState], .leaf 1 (.string true) Flatland.C04.blankState], 2⟩
+  let steps := runOps (fun (s : TState) o => match liveStep E w path s o with
       | .ok (s', ret, rd) =>
-        .ok (s', obj [("exc", Json.null), ("ret", retJson ret),
-                      ("read", match rd with | some (v, u) => Json.arr #[ofNative v, ofText u] | none => Json.null),
-                      ("t", stateJson s'.t)])
-      | .error .typeError => .error "TypeError"
-      | .error (.scalar e) => .error (raiseName e)) excObj start ops []
+        .ok (s', obj [("exc", Json.null), ("ret", retJson ret), ("read", readJson rd),
+                      ("t", match leafStates (s'.tree.resolve path) with | [st] => stateJson st | _ => Json.null)])
+      | .error e => .error (traiseName e)) excObj start ops []
   return obj [("steps", Json.arr steps.toArray)]
 
-def parseRefListOp (j : Json) : Except String RefListOp := do
+/-- form `Dict{l: List.of(k), r: Ref('../l/<index>')}` -/
+def parseRefListOp (j : Json) : Except String TOp := do
+  let l : List PStep := [.name "l".toList]
   match (← sfld j "op") with
-  | "lset" => return .listSet (← listOf parseNative (← fld j "xs"))
-  | "insertfront" => return .insertFront (← parseNative (← fld j "x"))
-  | "delfront" => return .deleteFront
-  | "member" => return .memberSet (← nfld j "i") (← parseNative (← fld j "x"))
-  | "read" => return .read
+  | "lset" => return .listSet l (← listOf parseNative (← fld j "xs"))
+  | "insertfront" => return .listInsert l 0 (← parseNative (← fld j "x"))
+  | "insert" => return .listInsert l (← nfld j "i") (← parseNative (← fld j "x"))
+  | "delfront" => return .listDel l 0
+  | "del" => return .listDel l (← nfld j "i")
+  | "member" => return .leafSet (l ++ [.index (← nfld j "i")]) (← parseNative (← fld j "x"))
+  | "read" => return .refRead
   | "rset" => return .refSet (← parseNative (← fld j "x"))
   | o => throw s!"bad reflist op {o}"
 
 def runRefList (j : Json) : Except String Json := do
   let E ← envOf j
   let k ← parseKind (← fld j "kind")
-  let w ← match (← sfld j "writable") with
-    | "ignore" => pure Writable.ignore | "yes" => pure Writable.yes | "no" => pure Writable.no
-    | s => throw s!"bad writable {s}"
+  let w ← parseWritable j
+  let idx := match j.getObjVal? "index" with | .ok (.num n) => n.mantissa.toNat | _ => 0
   let ops ← (← afld j "ops").mapM parseRefListOp
-  let steps := runOps (fun (s : List SState) o => match refListStep E k w s o with
+  let path : List PStep := [.name "l".toList, .index idx]
+  let start : TState := ⟨.dict ["l".toList] [.list k []], 0⟩
+  let steps := runOps (fun (s : TState) o => match liveStep E w path s o with
       | .ok (s', ret, rd) =>
-        .ok (s', obj [("exc", Json.null), ("ret", retJson ret),
-                      ("read", match rd with | some (v, u) => Json.arr #[ofNative v, ofText u] | none => Json.null),
-                      ("members", membersJson s')])
-      | .error .typeError => .error "TypeError"
-      | .error .lookupError => .error "LookupError"
-      | .error .indexError => .error "IndexError"
-      | .error (.scalar e) => .error (raiseName e)) excObj [] ops []
+        .ok (s', obj [("exc", Json.null), ("ret", retJson ret), ("read", readJson rd),
+                      ("members", membersJson (leafStates (s'.tree.resolve [.name "l".toList])))])
+      | .error e => .error (traiseName e)) excObj start ops []
   return obj [("steps", Json.arr steps.toArray)]
 
 def run (j : Json) : Except String Json := do
